@@ -5,6 +5,7 @@ CONSTANTS
   Fixed = TRUE
   Fixed2 = TRUE
   Fixed3 = FALSE
+  Fixed4 = FALSE
   Emit = FALSE
 INVARIANTS WellFormed NoCommentOpener PunctGuarded WordsGuarded ExponentGuarded DotsGuarded EmitPair
 CHECK_DEADLOCK FALSE
